@@ -150,24 +150,12 @@ def HistoryCounts : Prop :=
     newLimited limit = .ok a0 → Gen.initGhostHeap ≤ limit → (∀ op ∈ ops, op.wf) →
     (Session.init a0).run ops = .ok (sf, ts) → CountsFollow (abs a0) (Session.init a0) ops ts
 
-theorem inv_new (limit : Nat) (a0 : Alloc) (h : newLimited limit = .ok a0) (hl : Gen.initGhostHeap ≤ limit) :
-    Inv a0 ∧ HeapOk a0 := by
-  unfold newLimited at h
-  split at h
-  · cases h
-  · next hle =>
-    cases h
-    refine ⟨⟨Closed.nil _, ?_, ?_, ?_⟩, hl⟩
-    · show ([] : List (Nat × Nat)).length + Gen.initGhostAtoms ≤ Gen.maxNumAtoms; decide
-    · show ([] : List (Ptr × Ptr)).length + Gen.initGhostPairs ≤ Gen.maxNumPairs; decide
-    · show limit ≤ u32Max; omega
-
 /-- … holds for every history none of whose steps is in the defect region -/
 theorem history_counts_partial (limit : Nat) (a0 : Alloc) (ops : List Op) (sf : Session)
     (ts : List (Tag × Nat × Nat × Nat)) (h0 : newLimited limit = .ok a0) (hl : Gen.initGhostHeap ≤ limit)
     (hw : ∀ op ∈ ops, op.wf) (hd : NoDefect (Session.init a0) ops)
     (h : (Session.init a0).run ops = .ok (sf, ts)) : CountsFollow (abs a0) (Session.init a0) ops ts := by
-  have ⟨hI, hH⟩ := inv_new limit a0 h0 hl
+  have ⟨hI, hH⟩ := inv_newLimited limit a0 h0 hl
   exact run_counts ops _ (SInv.init a0 hI hH) hw hd sf ts h
 
 /-- the history `new_limited(3); new_small_number(128); new_substr(#0, 0, 1)` reports heap 4 -/
